@@ -202,7 +202,11 @@ func main() {
 		{`err = ConvertFileSystemError(fs.vfs.Remove(dir))`, "RemoveDir"},
 		{`dir = filepath.Clean(dir)`, "CleanPath"},
 		{`dir = strings.TrimRight(dir, string(fs.PathSeparator()))`, "TrimPath"},
+		{`info, lErr := fs.Lstat(dir)`, "LstatDir"},
+		{`err = lErr`, "SetLErr"},
 	}, common...), [][2]string{
+		{`lErr != nil && !IsPathNotExist(lErr) && !commonerrors.Any(lErr, commonerrors.ErrNotFound, commonerrors.ErrNotImplemented)`, "LstatUnknown"},
+		{`lErr == nil && IsSymLink(info)`, "Link"},
 		{`info, subErr := fs.Lstat(dir); subErr == nil && IsSymLink(info)`, "Link"},
 		{`info, subErr := fs.Lstat(filepath.Clean(dir)); subErr == nil && IsSymLink(info)`, "LinkOnCleanOnly"},
 		{`info, subErr := fs.Stat(dir); subErr == nil && IsSymLink(info)`, "LinkByStat"},
@@ -224,6 +228,12 @@ func main() {
 			return "TDir"
 		}
 		return "TNone"
+	}
+	// the link test is either `if info, subErr := fs.Lstat(dir); subErr == nil && IsSymLink(info)` or the three-statement form
+	// Lstat(dir); unknown error => return it; lErr == nil && IsSymLink(info)
+	rmFailClosed := follows(rm, "LstatDir", "LstatUnknown{") && follows(rm, "}LstatUnknown", "Link{") && strings.Join(sub(rm, "LstatUnknown"), " ") == "SetLErr Ret"
+	if has(rm, "LstatDir") != rmFailClosed || has(rm, "LstatUnknown{") != rmFailClosed {
+		die("removeWithExclusionPatterns: the Lstat test has an unknown shape: %v", rm)
 	}
 	rmLinkFirst := has(rm, "Link{") && before(rm, "Link{", "ExistsRet") && before(rm, "Link{", "IsDir") && before(rm, "Link{", "IsEmpty1") && before(rm, "Link{", "RemoveDir")
 	// the path is cleaned after the empty-path test (Clean("") is ".") and before anything looks at it
@@ -292,7 +302,11 @@ func main() {
 		{`_ = fs.garbageCollectFile(ctx, durationSinceLastAccess, path)`, "FileNoRet"},
 		{`err = fs.garbageCollectFile(ctx, durationSinceLastAccess, path)`, "FileNoRet"},
 		{`return fs.garbageCollectDir(ctx, durationSinceLastAccess, path, deletePath)`, "RetDir"},
+		{`info, lErr := fs.Lstat(path)`, "LstatPath"},
+		{`return lErr`, "RetLErr"},
 	}, common...), [][2]string{
+		{`lErr != nil && !IsPathNotExist(lErr) && !commonerrors.Any(lErr, commonerrors.ErrNotFound, commonerrors.ErrNotImplemented)`, "LstatUnknown"},
+		{`lErr == nil && IsSymLink(info)`, "Link"},
 		{`deletePath`, "UnderDelete"},
 		{`info, subErr := fs.Lstat(path); subErr == nil && IsSymLink(info)`, "Link"},
 		{`info, subErr := fs.Stat(path); subErr == nil && IsSymLink(info)`, "LinkByStat"},
@@ -300,6 +314,11 @@ func main() {
 	})
 	g := tokens("garbageCollect", findFunc(ff, "VFS", "garbageCollect").Body.List, gcSh)
 	gl := sub(g, "Link")
+	gcFailClosed := follows(g, "LstatPath", "LstatUnknown{") && follows(g, "}LstatUnknown", "Link{") && strings.Join(sub(g, "LstatUnknown"), " ") == "RetLErr" &&
+		before(g, "UnderDelete{", "LstatPath") && before(g, "Link{", "}UnderDelete")
+	if has(g, "LstatPath") != gcFailClosed || has(g, "LstatUnknown{") != gcFailClosed {
+		die("garbageCollect: the Lstat test has an unknown shape: %v", g)
+	}
 	gcLinkFirst := has(g, "Link{") && before(g, "UnderDelete{", "Link{") && before(g, "}Link", "}UnderDelete") && before(g, "}UnderDelete", "IsDir{") &&
 		len(gl) == 1 && gl[0] == "RetFile"
 	gcExistsFirst := before(g, "ExistsRet", "UnderDelete{") && before(g, "ExistsRet", "IsDir{") && has(g, "ExistsRet")
@@ -321,10 +340,17 @@ func main() {
 		{`dir != ""`, "NonEmpty"},
 		{`commonerrors.Any(err, nil, commonerrors.ErrTimeout, commonerrors.ErrCancelled)`, "Final"},
 		{`info, lErr := fs.Lstat(dir); lErr != nil || !IsSymLink(info)`, "Guard"},
+		{`info, lErr := fs.Lstat(dir); lErr == nil && !IsSymLink(info)`, "GuardClosed"},
 		{`subErr == nil`, "IfChowned"},
 		{`correctobj, ok := fs.vfs.(IForceRemover); ok`, "IfForcer"},
 	})
 	pv := tokens("RemoveWithPrivileges", findFunc(ff, "VFS", "RemoveWithPrivileges").Body.List, pvSh)
+	pvFailClosed := has(pv, "GuardClosed{")
+	if pvFailClosed {
+		for i := range pv {
+			pv[i] = strings.Replace(pv[i], "GuardClosed", "Guard", 1)
+		}
+	}
 	guard := sub(pv, "Guard")
 	chownGuarded := len(guard) == 1 && (guard[0] == "Chown" || guard[0] == "ChownRec")
 	chownOutside := false
@@ -382,13 +408,45 @@ func main() {
 		die("platform.RemoveWithPrivileges: body of unknown shape:\n%s", prText)
 	}
 
+	// ---- exclusion.go: the patterns of each call are compiled afresh
+	ef, err := parser.ParseFile(fset, filepath.Join(repo, "utils/filesystem/exclusion.go"), nil, 0)
+	if err != nil {
+		die("%v", err)
+	}
+	pkgVars := 0
+	for _, d := range ef.Decls {
+		if gd, ok := d.(*ast.GenDecl); ok && gd.Tok == token.VAR {
+			pkgVars++
+		}
+	}
+	wantNew := sq(`{ var regexes []*regexp.Regexp
+		var patternsExtendedList []string
+		for i := range exclusionPatterns { pattern := exclusionPatterns[i]
+			if !reflection.IsEmpty(pattern) { patternsExtendedList = append(patternsExtendedList, pattern, fmt.Sprintf(".*/%v/.*", pattern), fmt.Sprintf(".*%v%v%v.*", pathSeparator, pattern, pathSeparator)) } }
+		for i := range patternsExtendedList { r, err := regexp.Compile(patternsExtendedList[i])
+			if err != nil { return nil, commonerrors.WrapErrorf(commonerrors.ErrInvalid, err, "could not compile pattern [%v]", patternsExtendedList[i]) }
+			regexes = append(regexes, r) }
+		return regexes, nil }`)
+	wantIs := sq(`{ regexes, err := NewExclusionRegexList(pathSeparator, exclusionPatterns...)
+		if err != nil { return false }
+		return IsPathExcluded(path, regexes...) }`)
+	strip := func(x string) string { return strings.ReplaceAll(x, ";", "") }
+	newOK := strip(norm(findFunc(ef, "", "NewExclusionRegexList").Body)) == strip(wantNew)
+	isOK := strip(norm(findFunc(ef, "", "IsPathExcludedFromPatterns").Body)) == strip(wantIs)
+	exStateless := pkgVars == 0 && newOK && isOK
+	exNote := fmt.Sprintf("%d package-level var declarations; NewExclusionRegexList as expected: %v; IsPathExcludedFromPatterns as expected: %v", pkgVars, newOK, isOK)
+	if !exStateless && pkgVars == 0 {
+		die("exclusion.go: NewExclusionRegexList / IsPathExcludedFromPatterns have an unknown shape")
+	}
+
 	var o strings.Builder
 	o.WriteString("(* GENERATED by translator-c04/cmd/rmfacts2coq from utils/filesystem/files.go and utils/platform/deletion*.go of the\n   repository's working tree — DO NOT EDIT; regenerated on every run of ./check C04. *)\nFrom GU Require Import C04.Facts.\n\n")
 	fmt.Fprintf(&o, "(* removeWithExclusionPatterns: %s\n   CleanDirWithContextAndExclusionPatterns: %s\n   removeFileWithContext: %s *)\n", strings.Join(rm, " "), strings.Join(cl, " "), strings.Join(nf, " "))
-	fmt.Fprintf(&o, "Definition rm : rm_facts := mkRm %s %s %s %s %s %s %s %s %s %s %s %s %s %s %s.\n\n", b(rmLinkFirst), b(rmLinkCtx), rmLinkExcl, b(rmLinkReturns),
-		b(rmCleanErrFirst), b(rmCleanPatterns), b(rmStop), b(rmFinalCtx), rmFinalExcl, b(clLs), b(clStop), b(clPat), nested, b(nestedPat), b(rmCleaned))
-	fmt.Fprintf(&o, "(* garbageCollect: %s *)\nDefinition gc : gc_facts := mkGc %s %s.\n\n", strings.Join(g, " "), b(gcLinkFirst), b(gcExistsFirst))
-	fmt.Fprintf(&o, "(* VFS.RemoveWithPrivileges: %s *)\nDefinition priv : priv_facts := mkPriv %s %s %s %s %s.\n", strings.Join(pv, " "), b(pvGuard), b(pvRec), b(forcePath), b(resolves), b(pvCleaned))
+	fmt.Fprintf(&o, "Definition rm : rm_facts := mkRm %s %s %s %s %s %s %s %s %s %s %s %s %s %s %s %s.\n\n", b(rmLinkFirst), b(rmLinkCtx), rmLinkExcl, b(rmLinkReturns),
+		b(rmCleanErrFirst), b(rmCleanPatterns), b(rmStop), b(rmFinalCtx), rmFinalExcl, b(clLs), b(clStop), b(clPat), nested, b(nestedPat), b(rmCleaned), b(rmFailClosed))
+	fmt.Fprintf(&o, "(* garbageCollect: %s *)\nDefinition gc : gc_facts := mkGc %s %s %s.\n\n", strings.Join(g, " "), b(gcLinkFirst), b(gcExistsFirst), b(gcFailClosed))
+	fmt.Fprintf(&o, "(* VFS.RemoveWithPrivileges: %s *)\nDefinition priv : priv_facts := mkPriv %s %s %s %s %s %s.\n\n", strings.Join(pv, " "), b(pvGuard), b(pvRec), b(forcePath), b(resolves), b(pvCleaned), b(pvFailClosed))
+	fmt.Fprintf(&o, "(* exclusion.go: %s *)\nDefinition ex : ex_facts := mkEx %s.\n", exNote, b(exStateless))
 	old, _ := os.ReadFile(out)
 	if string(old) != o.String() {
 		if err := os.WriteFile(out, []byte(o.String()), 0o644); err != nil {
